@@ -628,7 +628,7 @@ pub fn run(ctx: &Ctx, stats: &mut Stats) {
     run_prop(ctx, stats, "batches", n2, catalog_strategy(130, 12), &move |c: &Catalog| check_batches(&c2, c));
     let c3 = ctx.clone();
     let n3 = ctx.tier.pick(192, 6_000);
-    let cfg = GenCfg { max_contig: 3000, max_samples: 5, many_samples_pct: 10, single_file: None, vary_presentation: false };
+    let cfg = GenCfg { max_contig: 3000, max_samples: 5, many_samples_pct: 10, single_file: None, vary_presentation: false, swarm_pct: 0 };
     run_prop(ctx, stats, "end-to-end", n3, gen::collection_strategy(cfg), &move |c: &Collection| check_e2e(&c3, c));
     if ctx.tier == Tier::Thorough || std::env::var("VERIF_FUZZ").is_ok() {
         crate::fuzzing::run_stage(ctx, stats, "codec", ctx.tier.pick(200_000, 3_000_000));
